@@ -54,10 +54,20 @@ def build(case):
     fmt_cols, ftypes = [], {}
     from ak.ppobj import PPEnumFieldType
     records, cells, keys = [], [], []
+    # a column selection may show one field several times: an enum column repeats the field of the nearest earlier
+    # column of the same kind (same values, possibly another width)
+    same = {}
+    for c, col in enumerate(cols):
+        if col['kind'] != 'plain':
+            prev = [c0 for c0 in range(c) if cols[c0]['kind'] == col['kind']]
+            if prev:
+                same[c] = same.get(prev[-1], prev[-1])
+    for c, c0 in same.items():
+        fields[c] = fields[c0]
     for r, rec in enumerate(recs):
         vals, texts, key = [], [], []
         for c, col in enumerate(cols):
-            x = rec[c]
+            x = rec[same.get(c, c)]
             if col['kind'] != 'plain':
                 v = ENUM_VALS[x % 4]
                 mod = col['kind'].split('/')[1] if '/' in col['kind'] else None
@@ -72,7 +82,9 @@ def build(case):
                 texts.append(str(v))
             if col['brk']:
                 key.append(vals[-1])
-        records.append(tuple(vals) if r % 2 else list(vals))
+        # record = one value per distinct field, in field order
+        rv = [v for c, v in enumerate(vals) if c not in same]
+        records.append(tuple(rv) if r % 2 else list(rv))
         cells.append([cps(t) for t in texts])
         keys.append(key)
     for c, col in enumerate(cols):
@@ -93,7 +105,8 @@ def build(case):
         fmt += ';%d:%d' % (lim[0], lim[1])
     hdr = {0: None, 3: 'Hdr', 40: 'H|+' * 13 + 'H'}[opts['hdr']]
     ftr = {0: None, 3: 'End', 40: 'F-+' * 13 + 'F'}[opts['ftr']]
-    kwargs = dict(fmt=fmt, fields=fields, fields_types=ftypes or None, header=hdr, footer=ftr)
+    ufields = [f for c, f in enumerate(fields) if c not in same]
+    kwargs = dict(fmt=fmt, fields=ufields, fields_types=ftypes or None, header=hdr, footer=ftr)
     limits = [-1, -1] if lim[0] == -1 else ([30, 20] if lim[0] == 99 else list(lim))
     jc = {'cols': [{'min': c['min'], 'max': c['max'], 'brk': c['brk']} for c in cols],
           'titles': [cps(f) for f in fields], 'cells': cells, 'keys': keys, 'limits': limits,
@@ -105,6 +118,9 @@ def render(case):
     from ak.ppobj import PPTable
     records, kwargs, jc = build(case)
     t = PPTable(records, **kwargs)
+    if (len(records) + len(kwargs['fmt'])) % 3 == 0:
+        # the same table built from a format object (another table's .fmt), as ak/mcaller_sql.py does
+        t = PPTable(records, fmt_obj=t.fmt, header=kwargs['header'], footer=kwargs['footer'])
     text = t.ch_text(no_color=True).plain_text()
     jc['lines'] = [cps(ln) for ln in text.split('\n')]
     return jc, kwargs['fmt'], text
